@@ -10,6 +10,8 @@
 //!   trap:C "ignore" | "cmd:<text>"  (conditions with a non-default action)
 //!   disp:S "ignore" | "catch"       (kernel-level disposition, a fixed signal list)
 //!   pend:S "1" the signal was caught and its trap action has not run yet (same list)
+//!   kpend:S "1" the signal is in the pending set of the simulated process (same list)
+//!   xctx:cond "1" the runtime stack holds a `Frame::Condition` (errexit is ignored)
 //!   cwd, umask (3 octal digits)
 //!   fd:N   "o<k>" identity of the open file description (k numbered in order of
 //!          first appearance within the run), fdx:N "1" if close-on-exec
@@ -74,6 +76,13 @@ fn pause_main(env: &mut VEnv, args: Vec<Field>) -> Pin<Box<dyn Future<Output = B
     })
 }
 
+/// Number of subshells of a kind.
+fn n_children(kind: &str) -> usize {
+    if kind == "CmdSubst2" { 2 } else { pipe_width(kind).unwrap_or(1) }
+}
+
+const COND_CTXS: [&str; 5] = ["if", "while", "until", "not", "and"];
+
 /// Number of commands of the pipeline kinds ("Pipe", "Pipe3", "Pipe4", "NotPipe", "NotPipe3").
 fn pipe_width(kind: &str) -> Option<usize> {
     match kind {
@@ -113,6 +122,20 @@ fn ofd_id(rc: &Rc<RefCell<OpenFileDescription>>) -> usize {
         ids.push(ptr);
         ids.len() - 1
     })
+}
+
+fn sig_name(raw: i64) -> String {
+    let all = [
+        ("KILL", yash_env::system::r#virtual::SIGKILL),
+        ("CHLD", yash_env::system::r#virtual::SIGCHLD),
+        ("PIPE", yash_env::system::r#virtual::SIGPIPE),
+    ];
+    for (n, s) in SIGS.iter().chain(all.iter()) {
+        if s.as_raw() as i64 == raw {
+            return n.to_string();
+        }
+    }
+    format!("SIG{raw}")
 }
 
 const SIGS: [(&str, yash_env::signal::Number); 6] = [
@@ -192,6 +215,9 @@ fn flat_snapshot(env: &mut VEnv) -> Flat {
             }
         }
     }
+    if env.stack.contains(&yash_env::stack::Frame::Condition) {
+        m.insert("xctx:cond".into(), "1".into());
+    }
     {
         // (read from the process table: `shell::snapshot` knows the cwd only under its own runner)
         use yash_env::system::GetPid as _;
@@ -224,6 +250,10 @@ fn flat_snapshot(env: &mut VEnv) -> Flat {
                     Disposition::Catch => {
                         m.insert(format!("disp:{name}"), "catch".into());
                     }
+                }
+                use yash_env::system::Sigset as _;
+                if p.pending_signals().contains(sig) == Ok(true) {
+                    m.insert(format!("kpend:{name}"), "1".into());
                 }
             }
         }
@@ -270,12 +300,14 @@ impl Scenario {
     pub fn from_json(v: &Value) -> Option<Scenario> {
         let kind = v["kind"].as_str()?.to_string();
         let ch: Vec<Vec<String>> = v["ch"].as_array()?.iter().map(strs).collect();
-        let want = pipe_width(&kind).unwrap_or(1);
-        if ch.len() != want {
+        if !["Paren", "CmdSubst", "CmdSubst2", "Async"].contains(&kind.as_str()) && pipe_width(&kind).is_none() {
+            return None;
+        }
+        if ch.len() != n_children(&kind) {
             return None;
         }
         let ctx = v["ctx"].as_str().unwrap_or("main").to_string();
-        if ctx != "main" && ctx != "trap" {
+        if ctx != "main" && ctx != "trap" && ctx != "sig" && !COND_CTXS.contains(&ctx.as_str()) {
             return None;
         }
         let mode = v["mode"].as_str().unwrap_or("script").to_string();
@@ -310,13 +342,39 @@ impl Scenario {
             head.push_str(c);
             head.push('\n');
         }
-        let body = self.render_construct();
-        if self.ctx == "trap" {
-            head.push_str("trap 'probe s' USR1\ntrap '. /tmp/act' USR2\nkill -s USR2 $$\n");
-            (head, Some(format!("kill -s USR1 $$\n{body}")))
-        } else {
-            (format!("{head}{body}"), None)
+        let inner = self.render_construct();
+        let body = format!("xsnap before\n{inner}xsnap after\n");
+        match self.ctx.as_str() {
+            "trap" => {
+                head.push_str("trap 'probe s' USR1\ntrap '. /tmp/act' USR2\nkill -s USR2 $$\n");
+                (head, Some(format!("kill -s USR1 $$\n{body}")))
+            }
+            // A sibling signals the parent (SIGUSR1, trapped).  The construct is the
+            // clause of a `case` whose subject makes the parent wait (for the `pause W`
+            // substitution) inside the very command that forks: a signal arriving
+            // then is still pending, or caught and not yet handled, at the fork.
+            "sig" => {
+                head.push_str("trap 'probe s' USR1\n{\npause S\nkill -s USR1 $$\nprobe k\n} &\n");
+                (
+                    format!(
+                        "{head}xsnap before\ncase $(pause W) in\n*)\n{inner};;\nesac\nuntil wait; do :; done\nxsnap after\n"
+                    ),
+                    None,
+                )
+            }
+            // errexit-exempt contexts (XCU 2.8.1 / set -e)
+            "if" => (format!("{head}if\n{body}then :; fi\n"), None),
+            "while" => (format!("{head}while\n{body}status 1\ndo :; done\n"), None),
+            "until" => (format!("{head}until\n{body}status 0\ndo :; done\n"), None),
+            "not" => (format!("{head}! {{\n{body}}}\n"), None),
+            "and" => (format!("{head}{{\n{body}}} && :\n"), None),
+            _ => (format!("{head}{body}"), None),
         }
+    }
+
+    /// Do the processes of the scenario have preemption points (`pause`)?
+    fn concurrent(&self) -> bool {
+        pipe_width(&self.kind).is_some() || self.kind == "Async" || self.ctx == "sig"
     }
 
     fn render_construct(&self) -> String {
@@ -325,10 +383,9 @@ impl Scenario {
             s.push_str(l);
             s.push('\n');
         };
-        line(&mut s, "xsnap before");
         // In the concurrent kinds every process has a preemption point before
         // each of its steps (first look included), see `pause`.
-        let conc = pipe_width(&self.kind).is_some() || self.kind == "Async";
+        let conc = self.concurrent();
         let body = |s: &mut String, j: usize, tail: Option<&str>| {
             if conc {
                 s.push_str(&format!("pause C{}\n", j + 1));
@@ -362,6 +419,13 @@ impl Scenario {
                 body(&mut s, 0, Some("echo out"));
                 line(&mut s, ")\"");
             }
+            "CmdSubst2" => {
+                line(&mut s, "probe cs \"$(");
+                body(&mut s, 0, Some("echo out"));
+                line(&mut s, ")$(");
+                body(&mut s, 1, Some("echo out"));
+                line(&mut s, ")\"");
+            }
             k if pipe_width(k).is_some() => {
                 let n = pipe_width(k).unwrap();
                 line(&mut s, if k.starts_with("Not") { "! {" } else { "{" });
@@ -385,7 +449,6 @@ impl Scenario {
             }
             other => panic!("unknown kind {other}"),
         }
-        line(&mut s, "xsnap after");
         s
     }
 }
@@ -394,7 +457,7 @@ impl Scenario {
     /// The pause points of the scenario as a multiset of roles (in program order per role).
     pub fn turns(&self) -> Vec<(String, usize)> {
         let mut v = vec![];
-        if pipe_width(&self.kind).is_some() || self.kind == "Async" {
+        if self.concurrent() {
             for (j, c) in self.ch.iter().enumerate() {
                 v.push((format!("C{}", j + 1), c.len() + 1));
             }
@@ -466,6 +529,14 @@ pub struct Obs {
     pub probes: Vec<(i32, String)>,
     /// files /tmp/r* existing after the run (created by redirection-only commands)
     pub files: Vec<String>,
+    /// final state of every simulated process: pid -> "R" | "S" | "E<status>" | "K<signal>"
+    pub fates: BTreeMap<i32, String>,
+    /// how many times the main shell process ran `probe s` (the SIGUSR1 trap action
+    /// of the "trap" and "sig" contexts)
+    pub pruns: usize,
+    /// "sig" context: pids forked after the sibling had sent its signal and
+    /// before the parent ran the trap action (the signal was pending at that fork)
+    pub forked_pending: Vec<i32>,
 }
 
 pub fn run_once(sc: &Scenario, plan: &[String], schedule: Schedule) -> Obs {
@@ -486,6 +557,7 @@ pub fn run_once(sc: &Scenario, plan: &[String], schedule: Schedule) -> Obs {
     };
     cfg.schedule = schedule;
     cfg.step_limit = 100_000;
+    cfg.trace_procs = sc.ctx == "sig";
     cfg.files = vec![
         FileSpec::Regular { path: "/dev/null".into(), content: vec![], mode: 0o666 },
         FileSpec::Regular { path: "/tmp/in".into(), content: b"input\n".to_vec(), mode: 0o644 },
@@ -508,7 +580,30 @@ pub fn run_once(sc: &Scenario, plan: &[String], schedule: Schedule) -> Obs {
     let mut out = String::new();
     let mut dup_tag = false;
     let mut probes: Vec<(i32, String)> = vec![];
+    let main_pid = r.events.iter().find(|e| e["ev"] == "xsnap").map(|e| e["pid"].as_i64().unwrap_or(0) as i32).unwrap_or(0);
+    let mut pruns = 0usize;
+    // "sig" context: the sibling's `probe k` follows its `kill` in the same scheduling step
+    let mut sent = false;
+    let mut known: Vec<i32> = vec![];
+    let mut forked_pending: Vec<i32> = vec![];
     for e in &r.events {
+        if e["ev"] == "probe" && e["args"][0] == "k" && sc.ctx == "sig" {
+            sent = true;
+            continue;
+        }
+        if e["ev"] == "proc" {
+            let pid = e["pid"].as_i64().unwrap_or(0) as i32;
+            if !known.contains(&pid) {
+                known.push(pid);
+                if sent && pruns == 0 {
+                    forked_pending.push(pid);
+                }
+            }
+            continue;
+        }
+        if e["ev"] == "probe" && e["args"][0] == "s" && e["pid"].as_i64().unwrap_or(0) as i32 == main_pid {
+            pruns += 1;
+        }
         if e["ev"] == "probe" && e["args"][0] != "cs" {
             probes.push((e["pid"].as_i64().unwrap_or(0) as i32, e["args"][0].as_str().unwrap_or("").to_string()));
         }
@@ -543,7 +638,22 @@ pub fn run_once(sc: &Scenario, plan: &[String], schedule: Schedule) -> Obs {
     let mut files: Vec<String> =
         shell::inode_paths(&r.state).into_iter().map(|x| x.1).filter(|p| p.starts_with("/tmp/r")).collect();
     files.sort();
-    Obs { outcome, status: r.status, snaps, out, stderr: r.stderr_str(), choices: r.choices.clone(), events: r.events, plan: plan.to_vec(), probes, files }
+    let fates: BTreeMap<i32, String> = shell::proc_table(&r.state).into_iter().map(|(pid, v)| (pid, v.1)).collect();
+    Obs {
+        outcome,
+        status: r.status,
+        snaps,
+        out,
+        stderr: r.stderr_str(),
+        choices: r.choices.clone(),
+        events: r.events,
+        plan: plan.to_vec(),
+        probes,
+        files,
+        fates,
+        pruns,
+        forked_pending,
+    }
 }
 
 fn get<'a>(m: &'a Flat, k: &str) -> &'a str {
@@ -625,8 +735,9 @@ pub fn record(sc: &Scenario, obs: &Obs) -> Value {
             }
         }
     }
-    let ok = miss.is_empty();
-    let d = |a: &Flat, b: &Flat| if ok { diff(a, b) } else { vec![] };
+    // a difference is recorded when both of its snapshots exist (a missing one is in `miss`)
+    let has = |t: &str| obs.snaps.contains_key(t);
+    let d = |ta: &str, a: &Flat, tb: &str, b: &Flat| if has(ta) && has(tb) { diff(a, b) } else { vec![] };
     // which process ran which `probe <tag>` (sorted sets): the subshells by the
     // pid of their entry snapshot, the parent, and any other process
     let tags_of = |f: &dyn Fn(i32) -> bool| -> Vec<String> {
@@ -642,9 +753,29 @@ pub fn record(sc: &Scenario, obs: &Obs) -> Value {
         .enumerate()
         .map(|(j, (en, end))| {
             let pid = child_pids[j];
-            json!({"d_entry": d(&before, en), "d_end": d(en, end), "probes": tags_of(&|p| p == pid && p != main_pid)})
+            let (te, td) = (format!("entry{}", j + 1), format!("end{}", j + 1));
+            json!({"d_entry": d("before", &before, &te, en), "d_end": d(&te, en, &td, end),
+                   "probes": tags_of(&|p| p == pid && p != main_pid),
+                   "fate": obs.fates.get(&pid).cloned().unwrap_or_else(|| "?".to_string()),
+                   "fpend": if obs.forked_pending.contains(&pid) { "1" } else { "-" }})
         })
         .collect();
+    // every process of the run that was terminated by a signal: "<who>:<SIG>",
+    // who = P (the main shell), C<j> (subshell j, known by its entry snapshot), other
+    let mut killed: Vec<String> = vec![];
+    for (pid, f) in &obs.fates {
+        if let Some(n) = f.strip_prefix('K') {
+            let who = if *pid == main_pid {
+                "P".to_string()
+            } else if let Some(j) = child_pids.iter().position(|p| p == pid) {
+                format!("C{}", j + 1)
+            } else {
+                "other".to_string()
+            };
+            killed.push(format!("{who}:{}", sig_name(n.parse().unwrap_or(-1))));
+        }
+    }
+    killed.sort();
     let parent_probes = tags_of(&|p| p == main_pid);
     let other_probes = tags_of(&|p| p != main_pid && !child_pids.contains(&p));
     let init_obj: Map<String, Value> = init.iter().map(|(k, v)| (k.clone(), json!(v))).collect();
@@ -659,9 +790,11 @@ pub fn record(sc: &Scenario, obs: &Obs) -> Value {
         "miss": miss,
         "inparent": same_pid,
         "init": init_v,
-        "d_before": d(&init, &before),
+        "d_before": d("init", &init, "before", &before),
         "ch": chj,
-        "d_after": d(&before, &after),
+        "d_after": d("before", &before, "after", &after),
+        "killed": killed,
+        "pruns": obs.pruns,
         "out": obs.out,
         "probes": parent_probes,
         "oprobes": other_probes,
@@ -696,7 +829,10 @@ pub fn explore(sc: &Scenario, idx: usize, ex: &Explore) -> (Vec<Value>, Stats) {
     let mut st = Stats { runs: 0, max_choices: 0, plans: 0, concurrent: false };
     let turns = sc.turns();
     let seed0 = ex.seed.wrapping_mul(0x9E37_79B9_7F4A_7C15).wrapping_add((idx as u64) << 12);
-    let plans: Vec<Vec<String>> = match all_plans(&turns, ex.plans.max(1)) {
+    // "sig" context: fewer merge orders of the subshells' commands, each with the
+    // sibling's signal placed at every point (see below)
+    let base_limit = if sc.ctx == "sig" { (ex.plans / 2).max(2) } else { ex.plans };
+    let plans: Vec<Vec<String>> = match all_plans(&turns, base_limit.max(1)) {
         Some(p) => p,
         None => {
             let mut rng = rand::rngs::StdRng::seed_from_u64(seed0 ^ 0x51ed);
@@ -706,11 +842,30 @@ pub fn explore(sc: &Scenario, idx: usize, ex: &Explore) -> (Vec<Value>, Stats) {
             let bwd: Vec<String> = turns.iter().rev().flat_map(|(r, n)| std::iter::repeat_n(r.clone(), *n)).collect();
             v.push(fwd);
             v.push(bwd);
-            while v.len() < ex.plans.max(2) {
+            while v.len() < base_limit.max(2) {
                 v.push(random_plan(&turns, &mut rng));
             }
             v
         }
+    };
+    // The waiting substitution (W) comes first; the sibling's `kill` (S) is placed
+    // at every point: before W is over (the signal reaches the parent inside the
+    // command that forks: pending at the fork), right after the fork, between any
+    // two commands of the subshells / the parent, after all of them.
+    let plans: Vec<Vec<String>> = if sc.ctx == "sig" {
+        let mut v = vec![];
+        for b in &plans {
+            let mut w = vec!["W".to_string()];
+            w.extend(b.iter().cloned());
+            for i in 0..=w.len() {
+                let mut p = w.clone();
+                p.insert(i, "S".to_string());
+                v.push(p);
+            }
+        }
+        v
+    } else {
+        plans
     };
     st.plans = plans.len();
     st.concurrent = !turns.is_empty();
